@@ -40,7 +40,9 @@ SPEC("pane.convert", "buildable.bounded", bounded=True,
 # ---- C05, bounded: from_data(into_data(x, T), T) == x for dataclass instances, over layouts / renaming / aliases ---------------
 SPEC("pane.classes", "class_roundtrip.bounded", bounded=True,
      ensures=[(lambda obj, result: result[0] == "ok", ["C05"], "output-accepted-back"),
-              (lambda obj, result: implies(result[0] == "ok", type(result[1]) is type(obj) and result[1] == obj), ["C05"], "round-trip"),
+              # "modulo fields the user excluded": every non-excluded field comes back equal
+              (lambda obj, result: implies(result[0] == "ok", type(result[1]) is type(obj) and all(
+                  getattr(result[1], f.name) == getattr(obj, f.name) for f in obj.__pane_info__.fields if not f.exclude)), ["C05"], "round-trip"),
               (lambda obj, result: implies(result[0] == "ok", result[2] == result[3]), ["C05"], "serialise-again-same-data")],
      note="bounded: instances of the pool's dataclasses (struct / tuple layouts, rename styles, aliases, keyword-only and init=False fields)")
 
